@@ -283,9 +283,9 @@ fn run_map_sampled(shard: u64, sz: &Sizes, mon: &mut Monitor) {
 #[cfg(feature = "full")]
 fn run_setproof(shard: u64, sz: &Sizes, mon: &mut Monitor) {
     let mut rng = mon.rng("c-setproof", shard);
-    for _ in 0..sz.set_worlds {
+    for wi in 0..sz.set_worlds {
         let ranges = 1 + rnd::usize_below(&mut rng, 5);
-        match setproof::gen_world(&mut rng, ranges, mon) {
+        match setproof::gen_world(&mut rng, ranges, wi == 0, mon) {
             Ok(w) => setproof::run_world(&w, &mut rng, 2, mon),
             Err(e) => mon.inconclusive(&format!("cannot build a set-proof world: {e}")),
         }
@@ -388,10 +388,18 @@ fn main() {
     }
     let rule = "committed data = leaf lists generated by the harness; committed roots recomputed by reference trees written in the harness (heap tree with H([0]) padding / MMR with right-to-left peak bagging / H(key||root) map leaves). Candidates: (a) STM tree n=1..12 x every non-empty index subset x every single mutation of (leaves, indices, path values, nr_leaves, root) incl. every other position (padding, beyond, overflow), duplicates, unsorted, + sampled pairs, + sampled n<=600; (b) MKTree n=1..12 x every subset x every single mutation of the bincode form (leaf -> every other committed leaf / foreign / inner node, position -> every MMR position incl. inner ones, duplicate positions, mmr_size, items, root) + alternative pre-images with the same root (root as 1-leaf tree, inner level as leaves under a smaller mmr_size, byte moved across sibling leaves) + sampled pairs + sampled n<=2000; (c) block-range maps (all shapes up to the stated bound, then 1-8 ranges x 1-20 leaves, some nested) x sub-proof swapped / detached / key edited / master leaf replaced or duplicated / empty sub_proofs / every MKProof mutation on master and sub-proofs; MkSetProof / CardanoTransactionsSetProof with items added, renamed, moved, forged. A case is NON-TRIVIAL when at least one (position, leaf) / item it claims is false for the committed data (or the root was altered), i.e. acceptance would be a violation; distinct = distinct (committed root, wire bytes of the candidate).";
     if let Some(path) = &args.replay {
+        // a replay re-judges the single stored case and writes nothing (evidence and replay files of
+        // the last real run stay untouched)
         if !replay(path, &mut mon) {
-            mon.inconclusive("replay file not understood (kinds: stm, mkproof, mkmap)");
+            println!("INCONCLUSIVE property=C09 replay file not understood (supported kinds: stm, mkproof, mkmap)");
+            std::process::exit(2);
         }
-        mon.finish(rule, &[], 0);
+        if mon.violations() > 0 {
+            println!("VIOLATION property=C09 replay={} (witness reproduced)", path.display());
+            std::process::exit(1);
+        }
+        println!("HELD property=C09 the replayed case is not a violation on this tree (or it is a listed known finding)");
+        std::process::exit(0);
     }
     let sz = sizes(args.tier);
     let threads = vcore::default_threads();
